@@ -93,13 +93,13 @@ def scfg():
 def run(tier, seed, jobs):
     from .hcommon import run_h
 
-    plans = [{"cfg_ref": ("vf.props.c13", "cfg", [2]), "alphabet": alphabet(tier), "depth": 3 if tier == "quick" else 4, "label": "INBOX(2)"}]
+    plans = [{"cfg_ref": ("vf.props.c13", "cfg", [2]), "alphabet": alphabet(tier), "depth": 3, "label": "INBOX(2)"}]
     if tier != "quick":
         plans.append({"cfg_ref": ("vf.props.c13", "cfg", [0]), "alphabet": alphabet(tier), "depth": 3, "label": "INBOX(0)"})
     core = [{"s": "env", "op": "deliver", "m": "INBOX", "unseen": True}, {"s": "env", "op": "deliver", "m": "INBOX", "unseen": False},
             {"s": "A", "op": "del", "set": "*"}, {"s": "A", "op": "store", "set": "*", "mode": "+", "flags": "\\Answered \\Flagged"},
             {"s": "A", "op": "noop"}, {"s": "env", "op": "poll", "dt": 21.0}]
-    plans.append({"cfg_ref": ("vf.props.c13", "cfg", [2]), "alphabet": core, "depth": 5 if tier == "quick" else 7, "label": "INBOX(2), core alphabet, deep"})
+    plans.append({"cfg_ref": ("vf.props.c13", "cfg", [2]), "alphabet": core, "depth": 5 if tier == "quick" else 6, "label": "INBOX(2), core alphabet, deep"})
     res = run_h(PROP, RULES, plans, ("C13", "C04"), jobs, seed,
                  ["the delivery agent writes message max+1, optionally appends it to `unseen` preserving every other line, and always "
                   "advances the folder mtime (the premise of the property); a `tick` advances the mtime only",
